@@ -4,7 +4,7 @@
 # existing tests of the touched packages still pass with the change. Then files it under /verif/seeded/<Cxx>-<n>/.
 set -u
 P=$1; N=$2; PKG=$3; RX=${4:-Seed}
-WT=/tmp/seed/$P; OUT=/tmp/seed/out/$P
+ROOT=${SEEDROOT:-/tmp/seed}; SUF=${SEEDSUF:-}; WT=$ROOT/$P; OUT=$ROOT/out/$P
 export GOFLAGS=-mod=mod GOPROXY=off GOSUMDB=off GOTOOLCHAIN=local
 cd $WT || exit 3
 git checkout -q -- . ; git clean -fdq
@@ -20,7 +20,7 @@ go build ./... && go test -vet=off -count=1 -run '^Test' $touched ./broker/ ./cl
 git checkout -q -- . ; git clean -fdq
 echo "without=$r0 with=$r1 suite=$r2"
 if [ $r0 = 0 ] && [ $r1 != 0 ] && [ $r2 = 0 ]; then
-  D=/verif/seeded/$P-$N; mkdir -p $D/demo
+  D=/verif/seeded/$P$SUF-$N; mkdir -p $D/demo
   cp $OUT/patch$N.diff $D/patch.diff; cp $OUT/demo$N/*.go $D/demo/; cp $OUT/notes$N.md $D/notes.md
   echo CONFIRMED $D
 else echo NOT-CONFIRMED; fi
